@@ -7,14 +7,16 @@ import vlib
 
 # mode -> (binaries (built by the owning check), extra args variants)
 MODES = {
-    "gp-memb": (["gp_memb"], [[], ["VRT_MEMBARRIER=0"]]),      # variant entries NAME=VALUE are environment settings
-    "gp-mb": (["gp_mb"], [[]]),
+    # variant entries NAME=VALUE are environment settings; the parked-reader variant drives synchronize_rcu through wait_gp()
+    "gp-memb": (["gp_memb"], [[], ["VRT_MEMBARRIER=0"], ["--parklen", "30000", "--nochurn", "--faults", "spur=200,eintr=300,enosys=0"]]),
+    "gp-mb": (["gp_mb"], [[], ["--parklen", "30000", "--nochurn", "--faults", "spur=200,eintr=300,enosys=0"]]),
     "gp-bp": (["gp_bp"], [[]]),
     "gp-qsbr": (["gp_qsbr"], [[]]),
     "wfs": (["wfs", "wfs_rcu"], [[]]),
     "lfs": (["lfs", "lfs_rcu"], [[]]),
     "wfcq": (["wfcq", "wfcq_nl"], [[]]),
     "lfq": (["lfq_memb", "lfq_mb"], [[]]),
+    "defer": (["defer_conc_memb", "defer_conc_mb"], [[]]),
 }
 
 # refinement theorems per mode: filled from the builders' reports; (modules, theorem names)
@@ -55,10 +57,12 @@ def replay_traces(chk, s, mode, nseeds):
             s.setdefault("missing_binaries", []).append(b)
             continue
         for var in variants:
-            for k in range(nseeds):
+            # the parked-reader variant gives long traces and a large search for the list answers: fewer of them
+            for k in range(max(1, nseeds // 6) if "--parklen" in var else nseeds):
                 seed = chk.seed * 100 + k
-                args = [path, "--seed", str(seed), "--pswitch", str([30, 10, 60, 3][k % 4])] + [v for v in var if "=" not in v or v.startswith("-")]
-                env = dict(v.split("=", 1) for v in var if "=" in v and not v.startswith("-"))
+                isenv = lambda v: re.match(r"^[A-Z_]+=", v) is not None
+                args = [path, "--seed", str(seed), "--pswitch", str([30, 10, 60, 3][k % 4])] + [v for v in var if not isenv(v)]
+                env = dict(v.split("=", 1) for v in var if isenv(v))
                 rc, out, err = vlib.sh2(args, timeout=120, env=env)
                 if rc not in (0,):
                     # the scenario's own oracles / budgets are the owning check's business
